@@ -178,6 +178,11 @@ def scenarios(tier):
     A = {0: [[("open", "p"), ("write", 0, b"a1"), ("close", 0), ("write", 0, b"late")]],
          1: [[("listen", "p")]]}
     S.append(mk("open-write-close-vs-late-listen", A, max_depth=80, max_states=400000))
+    # OPEN and CLOSE (no data at all, or only an empty write) queued before the listener appears
+    S.append(mk("open-close-nodata-vs-late-listen", {0: [[("open", "p"), ("close", 0)]], 1: [[("listen", "p")]]}, max_depth=60, max_states=400000))
+    if not q:
+        S.append(mk("open-emptywrite-close-vs-late-listen", {0: [[("open", "p"), ("write", 0, b""), ("close", 0)]], 1: [[("listen", "p")]]},
+                    max_depth=60, max_states=400000))
     A2 = {0: [[("open", "p"), ("write", 0, b"a1"), ("write", 0, b""), ("write", 0, b"a1"), ("close", 0), ("write", 0, b"late")]],
           1: [[("listen", "p")], [("swrite", 0, b"b1"), ("sclose", 0), ("swrite", 0, b"late")]]}
     S.append(mk("both-write-both-close-dev", A2, dev_bound=3 if q else 4, max_depth=120))
